@@ -546,8 +546,12 @@ Inv_C17 == (FlushedNow /\ HadFault) =>
 Quiescent == Fresh /\ calls = {} /\ rq = {}
 \* (evaluated where the file or the model can have changed: the flag was just
 \*  sampled clear, or a call other than a read has just returned)
+\* (the flag is recorded when it changes, after the event that changed it: when a call returns and a Flag
+\*  event follows at once, the value that counts is the one of that event - a failed flush_meta sets the flag
+\*  again just before it returns)
+FlagFollows == l <= Len(Rec) /\ Rec[l].e = "Flag"
 Inv_C18 == (Quiescent /\ nf = 0
-            /\ (Last.e = "Flag" \/ (Last.e = "Ret" /\ lastc.id = Last.id /\ lastc.op # "read"))) =>
+            /\ (Last.e = "Flag" \/ (Last.e = "Ret" /\ lastc.id = Last.id /\ lastc.op # "read" /\ ~FlagFollows))) =>
   /\ \A gb \in GBs : GuestVis(gb) \in cur[gb] \/ Unknown \in cur[gb]
   /\ F!TablesOK(vis, G) /\ F!Undercounted(vis, G) = {}
 
